@@ -8,6 +8,7 @@ use crate::error::StreamWriteError;
 use crate::SessionId;
 use crate::StreamId;
 use crate::VarInt;
+use std::future::Future;
 use std::pin::Pin;
 use std::task::ready;
 use std::task::Context;
@@ -586,6 +587,92 @@ impl From<quinn::ReadError> for StreamReadError {
             quinn::ReadError::IllegalOrderedRead => StreamReadError::QuicProto,
             quinn::ReadError::ZeroRttRejected => StreamReadError::QuicProto,
         }
+    }
+}
+
+/// A stream from which whole frames can be read.
+pub trait FrameStream: Sized + Send + 'static {
+    /// Reads the next frame, giving the stream back together with the outcome.
+    fn read_frame_owned(self) -> FrameReadFuture<Self>;
+}
+
+pub type FrameReadFuture<S> =
+    Pin<Box<dyn Future<Output = (S, Result<Frame<'static>, ProtoReadError>)> + Send>>;
+
+impl FrameStream for session::StreamSession {
+    fn read_frame_owned(mut self) -> FrameReadFuture<Self> {
+        Box::pin(async move {
+            let result = self.read_frame().await;
+            (self, result)
+        })
+    }
+}
+
+impl FrameStream for uniremote::StreamUniRemoteH3 {
+    fn read_frame_owned(mut self) -> FrameReadFuture<Self> {
+        Box::pin(async move {
+            let result = self.read_frame().await;
+            (self, result)
+        })
+    }
+}
+
+/// Cancel-safe frame reader.
+///
+/// Reading a frame consumes bytes from the QUIC stream piecewise; the progress of a
+/// frame that has not been completely received yet lives inside the read future.
+/// This holder keeps that future alive when [`FrameReader::read_frame`] itself is
+/// dropped (e.g., by a losing `select!` branch), so the next call resumes the same
+/// read and no byte of a partially received frame is lost.
+pub struct FrameReader<S> {
+    stream: Option<S>,
+    reading: Option<FrameReadFuture<S>>,
+}
+
+impl<S> FrameReader<S>
+where
+    S: FrameStream,
+{
+    pub fn empty() -> Self {
+        Self {
+            stream: None,
+            reading: None,
+        }
+    }
+
+    pub fn is_empty(&self) -> bool {
+        self.stream.is_none() && self.reading.is_none()
+    }
+
+    pub fn set_stream(&mut self, stream: S) {
+        self.reading = None;
+        self.stream = Some(stream);
+    }
+
+    /// Takes the stream out, if no frame read is in progress.
+    pub fn take_stream(&mut self) -> Option<S> {
+        self.stream.take()
+    }
+
+    /// Reads the next frame. Returns `None` if there is no stream.
+    ///
+    /// This method is cancel safe.
+    pub async fn read_frame(&mut self) -> Option<Result<Frame<'static>, ProtoReadError>> {
+        if self.reading.is_none() {
+            self.reading = Some(self.stream.take()?.read_frame_owned());
+        }
+
+        let (stream, result) = self
+            .reading
+            .as_mut()
+            .expect("read in progress")
+            .as_mut()
+            .await;
+
+        self.reading = None;
+        self.stream = Some(stream);
+
+        Some(result)
     }
 }
 
